@@ -39,6 +39,7 @@ import (
 
 	"verifharness/c02/sx"
 	"verifharness/hx"
+	"verifharness/serixgen"
 
 	"github.com/iotaledger/hive.go/ds/serializableorderedmap"
 	"github.com/iotaledger/hive.go/serializer/v2/serix"
@@ -79,6 +80,9 @@ func execOp(op string) result {
 	case "jt":
 		run = func() (string, string) { return execJT(f), "" }
 	case "x":
+		if isUniverse(f[1]) {
+			execX(f) // first use of the universe and of its types, outside the measured window
+		}
 		run = func() (string, string) { return "oracle-only", execX(f) }
 	default:
 		return result{answer: "bad-op"}
@@ -525,6 +529,9 @@ func rawX(f []string) string {
 		z := strings.Split(f[1], ":")
 
 		return rawConc(atoi(z[1]), atoi(z[2]), f[2] == "1")
+	}
+	if isUniverse(f[1]) {
+		return rawU(f)
 	}
 	var opts []serix.Option
 	if f[2] == "1" {
@@ -1726,6 +1733,20 @@ func main() {
 					}
 					b.emit(fmt.Sprintf("x %s %d %s", name, (off+k)%2, hx.Hex(d2)), "offset-sweep")
 				}
+			}
+		}
+	}
+	// every catalogue type and random registered universes of harness/serixgen under the resource oracle
+	{
+		rng, _ := r.Rng.Fork()
+		for _, name := range serixgen.CatalogueNames() {
+			if genUniverse(rng, "K:"+name, 1, b.emit) {
+				r.Count("universe:catalogue")
+			}
+		}
+		for k := 0; k < 30*scale; k++ {
+			if genUniverse(rng, fmt.Sprintf("G:%d:%d", rng.U64(), rng.Range(2, 4)), 1, b.emit) {
+				r.Count("universe:generated")
 			}
 		}
 	}
